@@ -1549,6 +1549,80 @@ static void run_tagged_delete_remote(State& S) {
   free_all(S);
 }
 
+// C08, first clause, exactly: "a block freed by a thread other than the one that allocated it becomes reusable by the owning thread".
+// Several rounds with one size class each: N blocks fill pages of a fresh heap of this thread completely -- allocated by this thread itself, or (adoption rounds) by a
+// thread that terminates, after which this thread adopts its pages (forced collect in the main thread, or reclaim-on-free) --, a few more blocks are allocated so that
+// the full pages are moved to the full queue, another thread frees a subset (every 2nd, every 3rd, a random half, all but one per page), the owner collects WITHOUT
+// force and allocates exactly as many blocks of that class again.  Those must be served from the freed blocks: the number of pages (areas of the heap walk) after the
+// re-allocation must not exceed the number before the frees (+1 for a page that became empty and was released or retired in between).
+static uint64_t g_reuse_rounds = 0, g_reuse_adopted_rounds = 0, g_reuse_blocks = 0;
+static void reuse_print(FILE* f) { fprintf(f, ",\"reuse\":{\"rounds\":%llu,\"adoption_rounds\":%llu,\"blocks_freed_remotely_and_reallocated\":%llu}", (unsigned long long)g_reuse_rounds, (unsigned long long)g_reuse_adopted_rounds, (unsigned long long)g_reuse_blocks); }
+struct AreaCount { size_t areas = 0, used = 0; };
+static bool area_count_visitor(const mi_heap_t*, const mi_heap_area_t* area, void* block, size_t, void* arg) { if (block == nullptr) { AreaCount* c = (AreaCount*)arg; c->areas++; c->used += area->used; } return true; }
+static AreaCount count_areas(mi_heap_t* h) { AreaCount c; mi_heap_visit_blocks(h, false, &area_count_visitor, &c); return c; }
+static void run_reuse_after_remote_free(State& S) {
+  S.sm.refutes_generic = "C08";
+  vf_crash_refutes = "C08";
+  add_result_printer(&reuse_print);
+  static const size_t classes[] = { 16, 48, 64, 200, 512, 1024, 3000, 8000, 20000, 60000 };
+  const int rounds = 12;
+  for (int r = 0; r < rounds; r++) {
+    const size_t bsz = classes[below(S, sizeof(classes) / sizeof(classes[0]))] + (size_t)below(S, 8);
+    const size_t N = (bsz <= 1024 ? 2000 + (size_t)below(S, 3000) : bsz <= 8192 ? 400 + (size_t)below(S, 400) : 40 + (size_t)below(S, 60));
+    const int adopt = (int)below(S, 3);           // 0: own blocks; 1: adopted by a forced collect of the main thread; 2: adopted by reclaim-on-free
+    const int pat = (int)below(S, 4);
+    std::vector<void*> ps;
+    mi_heap_t* H = mi_heap_get_backing();
+    vf_cur_what = "reuse: allocation";
+    if (adopt == 0) { for (size_t i = 0; i < N; i++) { void* q = mi_malloc(bsz); if (q) { memset(q, 0x42, bsz); ps.push_back(q); } } }
+    else {
+      if (adopt == 2) mi_option_set(mi_option_abandoned_reclaim_on_free, 1);
+      try { std::thread t([&]() { for (size_t i = 0; i < N; i++) { void* q = mi_malloc(bsz); if (q) { memset(q, 0x42, bsz); ps.push_back(q); } } }); t.join(); }
+      catch (const std::system_error& e) { vf_trip("harness", "", "cannot create a thread: %s", e.what()); }
+      vf_cur_what = "reuse: adoption";
+      if (adopt == 1) mi_collect(true);
+      else { for (size_t i = 0; i < ps.size(); i += 97) { mi_free(ps[i]); ps[i] = nullptr; } std::vector<void*> q2; for (void* q : ps) if (q) q2.push_back(q); ps.swap(q2); mi_option_set(mi_option_abandoned_reclaim_on_free, 0); }
+      // adopted?  (every block must now be attributed to this thread's heap; otherwise the round says nothing about the owner and is skipped)
+      bool all = true; for (size_t i = 0; i < ps.size(); i += 13) if (!mi_heap_check_owned(H, ps[i])) { all = false; break; }
+      if (!all) { for (void* q : ps) mi_free(q); mi_collect(true); continue; }
+      g_reuse_adopted_rounds++;
+    }
+    // walk the page queue of the class: completely used pages are moved to the full queue by allocations that pass over them
+    std::vector<void*> extra;
+    for (int i = 0; i < 64; i++) { void* q = mi_malloc(bsz); if (q) extra.push_back(q); }
+    const AreaCount before = count_areas(H);
+    // another thread frees a subset
+    std::vector<void*> tofree, kept;
+    vf_rng_t rr; vf_rng_seed(&rr, S.cfg.seed * 977 + (uint64_t)r);
+    for (size_t i = 0; i < ps.size(); i++) {
+      bool f = (pat == 0 ? (i % 2 == 0) : pat == 1 ? (i % 3 == 0) : pat == 2 ? vf_rng_chance(&rr, 1, 2) != 0 : (i % 16 != 5));
+      (f ? tofree : kept).push_back(ps[i]);
+    }
+    vf_cur_what = "reuse: frees by another thread";
+    try { std::thread t([&tofree]() { for (void* q : tofree) mi_free(q); }); t.join(); }
+    catch (const std::system_error& e) { vf_trip("harness", "", "cannot create a thread: %s", e.what()); }
+    vf_cur_what = "reuse: non-forced collect by the owner";
+    mi_collect(false);
+    vf_cur_what = "reuse: re-allocation";
+    std::vector<void*> again;
+    for (size_t i = 0; i < tofree.size(); i++) { void* q = mi_malloc(bsz); if (q) { memset(q, 0x43, bsz); again.push_back(q); } }
+    const AreaCount after = count_areas(H);
+    g_reuse_rounds++; g_reuse_blocks += tofree.size();
+    if (after.areas > before.areas + 1)
+      vf_trip("remote-frees-not-reusable", "C08", "round %d: %zu blocks of %zu bytes (%s) filled pages of this thread's heap (%zu areas, %zu used blocks); another thread freed %zu of them, the owner collected "
+              "(not forced) and allocated %zu blocks of the same size again: the heap now has %zu areas -- the freed blocks were not reused", r, ps.size(), bsz,
+              adopt == 0 ? "allocated by this thread" : adopt == 1 ? "allocated by a thread that terminated, adopted by a forced collect" : "allocated by a thread that terminated, adopted on free",
+              before.areas, before.used, tofree.size(), again.size(), after.areas);
+    for (void* q : kept) { if (((unsigned char*)q)[0] != 0x42 || ((unsigned char*)q)[bsz - 1] != 0x42) vf_trip("contents", "C08", "round %d: a live block changed", r); mi_free(q); }
+    for (void* q : again) mi_free(q);
+    for (void* q : extra) mi_free(q);
+    mi_collect(true);
+    check_errors(S, "reuse round");
+  }
+  S.sm.verify_all("end");
+  free_all(S);
+}
+
 // known finding K3 (C13, C10): with a per-thread segment target (target_segments_per_thread > 0, or mi_collect_reduce) a thread that needs a fresh segment abandons
 // whole segments of its own -- with the pages of EVERY heap of the thread that live there, also those of a heap made with mi_heap_new: its live blocks are then no
 // longer attributed to it (mi_heap_contains_block / mi_heap_check_owned) and mi_heap_destroy no longer releases them.  One dedicated case per run shows exactly that.
@@ -1628,6 +1702,7 @@ int main(int argc, char** argv) {
   else if (p == "tagged-delete") run_tagged_delete(S);
   else if (p == "target-heap") run_target_heap(S);
   else if (p == "tagged-delete-remote") { S.cfg.tags_in_use = true; run_tagged_delete_remote(S); }
+  else if (p == "reuse-after-remote-free") run_reuse_after_remote_free(S);
   else run_history(S);
   vf_finish_ok();
 }
